@@ -33,6 +33,7 @@ VERUS_THREADS = os.environ.get('VERIF_VERUS_THREADS', '6')
 
 SEMANTIC = [
     ('postcondition not satisfied', 'ensures'),
+    ('unable to prove post-condition of closure', 'ensures'),
     ('precondition not satisfied', 'precondition'),
     ('possible arithmetic underflow/overflow', 'overflow'),
     ('possible division by zero', 'div0'),
@@ -251,6 +252,9 @@ def enumerate_obligations(unit):
         if it.decreases:
             obs.append(dict(id='%s.termination' % base, item=it.id, kind='termination',
                             props=sorted(set(it.props) | set(it.safety_props))))
+        if it.hints:
+            obs.append(dict(id='%s.proof_step' % base, item=it.id, kind='proof', props=list(it.props),
+                            note='%d ghost proof steps spliced at anchored statements' % len(it.hints)))
         obs.append(dict(id='%s.safety' % base, item=it.id, kind='safety',
                         props=sorted(set(it.props) | set(it.safety_props)),
                         note='no overflow / division by zero / out-of-range cast / out-of-bounds index / reachable '
@@ -347,9 +351,12 @@ def map_failures(unit, res, linemap):
         elif kind == 'termination':
             f['obligation'] = '%s.termination' % base + ('.' + seg.clause.split('.')[0] if seg.clause.startswith('loop') else '')
             f['props'] = sorted(set(it.props) | set(it.safety_props))
-        elif kind == 'assert' and seg.region == 'hint':
-            undec.append('%s: proof hint assertion failed in %s (%s)' % (unit.NAME, seg.item, msg))
-            continue
+        elif seg.region == 'hint':
+            # an intermediate proof step of this function (spliced ghost code) no longer goes through: the function's
+            # postconditions are not established any more
+            f['obligation'] = '%s.proof_step' % base
+            f['detail'] = kind
+            f['props'] = list(it.props)
         elif seg.region in ('body', 'body-other', 'sig'):
             detail = kind
             if kind == 'precondition':
